@@ -353,6 +353,89 @@ theorem writeAll_empty_fills_gap (al : Nat) (hal : 0 < al) (p : Nat) (hp : p < 2
   · have hp0 : 0 < p := by omega
     simp [zeros, hp0, hni]
 
+/-! ### `write_vectored` of the standard cursor is one `write` of the concatenation
+
+    `vec_write_vectored` pads the vector up to the position once and copies the buffers one behind the other; the
+    model states it as one `write` per buffer (`SCur.writeMany`). The two descriptions are the same function. -/
+
+/-- two consecutive writes are one write of the concatenation -/
+theorem SCur.write_append (s : SCur) (a b : B) (h : s.pos + a.length + b.length ≤ Cur.isizeMax) :
+    ((s.write a).1.write b).1 = (s.write (a ++ b)).1 := by
+  have h1 : ¬ (Cur.isizeMax < s.pos + a.length) := by omega
+  have h3 : ¬ (Cur.isizeMax < s.pos + (a ++ b).length) := by simp only [List.length_append]; omega
+  have hvl := padded_length s.buf s.pos
+  generalize hv : (if s.pos > s.buf.length then s.buf ++ zeros (s.pos - s.buf.length) else s.buf) = v at hvl
+  have hpv : s.pos ≤ v.length := by omega
+  have hs1 : s.write a = ({ buf := v.take s.pos ++ a ++ v.drop (s.pos + a.length), pos := s.pos + a.length }, .wrote a.length) := by
+    simp only [SCur.write, if_neg h1, hv]
+  have hl1 : (v.take s.pos ++ a ++ v.drop (s.pos + a.length)).length ≥ s.pos + a.length := by
+    simp only [List.length_append, List.length_take, List.length_drop]; omega
+  rw [hs1]
+  have h2 : ¬ (Cur.isizeMax < (s.pos + a.length) + b.length) := by omega
+  have hnp : ¬ (s.pos + a.length > (v.take s.pos ++ a ++ v.drop (s.pos + a.length)).length) := by omega
+  simp only [SCur.write, if_neg h2, if_neg hnp, if_neg h3, hv]
+  have ht : (v.take s.pos ++ a ++ v.drop (s.pos + a.length)).take (s.pos + a.length) = v.take s.pos ++ a := by
+    rw [List.take_append_of_le_length (by simp only [List.length_append, List.length_take]; omega)]
+    rw [List.take_of_length_le (by simp only [List.length_append, List.length_take]; omega)]
+  have hd : (v.take s.pos ++ a ++ v.drop (s.pos + a.length)).drop (s.pos + a.length + b.length) = v.drop (s.pos + (a ++ b).length) := by
+    have hla : (v.take s.pos ++ a).length = s.pos + a.length := by simp only [List.length_append, List.length_take]; omega
+    rw [List.drop_append, List.drop_of_length_le (by omega), hla, List.nil_append, List.drop_drop]
+    congr 1; simp only [List.length_append]; omega
+  rw [ht, hd]
+  simp only [List.append_assoc, List.length_append, Nat.add_assoc]
+
+/-- after a write the position is inside the data, and the result is `wrote` -/
+theorem SCur.write_ok (s : SCur) (b : B) (h : s.pos + b.length ≤ Cur.isizeMax) :
+    (s.write b).2 = .wrote b.length ∧ (s.write b).1.pos = s.pos + b.length ∧ (s.write b).1.pos ≤ (s.write b).1.buf.length := by
+  have h1 : ¬ (Cur.isizeMax < s.pos + b.length) := by omega
+  have hvl := padded_length s.buf s.pos
+  simp only [SCur.write, if_neg h1]
+  refine ⟨trivial, trivial, ?_⟩
+  simp only [List.length_append, List.length_take, List.length_drop, hvl]; omega
+
+/-- a write of nothing at a position inside the data changes nothing -/
+theorem SCur.write_nil_inside (s : SCur) (hp : s.pos ≤ s.buf.length) (h : s.pos ≤ Cur.isizeMax) : (s.write []).1 = s := by
+  have h1 : ¬ (Cur.isizeMax < s.pos) := by omega
+  have h2 : ¬ (s.pos > s.buf.length) := by omega
+  simp only [SCur.write, if_neg h2, List.length_nil, Nat.add_zero, List.append_nil, List.take_append_drop, if_neg h1]
+
+/-- the loop over the buffers is one `write` of their concatenation -/
+theorem SCur.writeMany_eq_flatten : ∀ (bufs : List B) (s : SCur) (acc : Nat),
+    s.pos ≤ s.buf.length → s.pos + bufs.flatten.length ≤ Cur.isizeMax →
+    SCur.writeMany s bufs acc = ((s.write bufs.flatten).1, .wrote (acc + bufs.flatten.length))
+  | [], s, acc, hp, h => by
+      simp only [List.flatten_nil, List.length_nil, Nat.add_zero] at h ⊢
+      rw [SCur.write_nil_inside s hp h]; rfl
+  | b :: bs, s, acc, hp, h => by
+      simp only [List.flatten_cons, List.length_append] at h ⊢
+      obtain ⟨ho, hpos, hin⟩ := SCur.write_ok s b (by omega)
+      have happ := SCur.write_append s b bs.flatten (by omega)
+      simp only [SCur.writeMany]
+      generalize hw : s.write b = w at ho hpos hin happ
+      obtain ⟨s1, o1⟩ := w
+      simp only at ho hpos hin happ
+      subst ho
+      simp only
+      rw [SCur.writeMany_eq_flatten bs s1 _ hin (by omega), happ, Nat.add_assoc]
+
+/-- **`write_vectored` of the standard cursor, as the library implements it**: the vector is padded up to the position
+    and the buffers are copied one behind the other — one `write` of the concatenation, returning the total. -/
+theorem SCur.writeV_is_write_of_concatenation (s : SCur) (bufs : List B) (h : s.pos + bufs.flatten.length ≤ Cur.isizeMax) :
+    s.step (.writeV bufs) = ((s.write bufs.flatten).1, .wrote bufs.flatten.length) := by
+  obtain ⟨ho, hpos, hin⟩ := SCur.write_ok s [] (by simp only [List.length_nil]; omega)
+  have happ := SCur.write_append s [] bufs.flatten (by simp only [List.length_nil]; omega)
+  simp only [SCur.step]
+  generalize hw : s.write [] = w at ho hpos hin happ
+  obtain ⟨s1, o1⟩ := w
+  simp only [List.length_nil, Nat.add_zero] at ho hpos hin happ
+  subst ho
+  simp only
+  rw [SCur.writeMany_eq_flatten bufs s1 0 hin (by omega), happ]
+  simp
+
+example : (SCur.step { buf := [1, 2], pos := 4 } (.writeV [[7], [], [8, 9]])).2 = .wrote 3 ∧
+    (SCur.step { buf := [1, 2], pos := 4 } (.writeV [[7], [], [8, 9]])).1.buf = [1, 2, 0, 0, 7, 8, 9] := by decide
+
 /-- **Beyond `isize::MAX`** (round 11): a write that would end above `isize::MAX` bytes panics in both cursors ("capacity
     overflow") and leaves both exactly as they were — nothing is updated before the storage has grown. -/
 theorem write_beyond_isize_max (al : Nat) (a : ACur) (s : SCur) (b : B) (hR : R al a s)
